@@ -21,6 +21,13 @@ func init() {
 
 // one unit of work: a specification (S<hex>) or a pattern (P<hex>); the result is a canonical string
 func work(item string) (res string) {
+	res, _ = workKeep(item)
+	return res
+}
+
+// the same, and a function that prints the retained result object again (nil if nothing is retained):
+// what a parse returned must not be changed by later parses
+func workKeep(item string) (res string, again func() string) {
 	defer func() {
 		if r := recover(); r != nil {
 			res = "PANIC " + fmt.Sprint(r)
@@ -30,9 +37,10 @@ func work(item string) (res string) {
 	case 'S':
 		s, err := spec.Parse("f", strings.NewReader(unhx(item[1:])))
 		if err != nil {
-			return "ERR " + errLines(err)
+			return "ERR " + errLines(err), nil
 		}
 		out := specStr(s)
+		again = func() string { return specStr(s) }
 		if d, tm, err := s.DFA(); err == nil {
 			var ts []string
 			for t, states := range tm {
@@ -42,7 +50,7 @@ func work(item string) (res string) {
 		} else {
 			out += " DFAERR " + errLines(err)
 		}
-		return out
+		return out, again
 	case 'P':
 		p := unhx(item[1:])
 		var b strings.Builder
@@ -58,10 +66,15 @@ func work(item string) (res string) {
 			b.WriteString(" | OK " + dfaStr(a.ToDFA().EliminateDeadStates().ReindexStates()))
 			b.WriteString(" | tree=")
 			astTree(&b, a.Root)
+			again = func() string {
+				var t strings.Builder
+				astTree(&t, a.Root)
+				return t.String()
+			}
 		}
-		return b.String()
+		return b.String(), again
 	}
-	return "?"
+	return "?", nil
 }
 
 // the package-level tables every parse reads; they are read-only by convention, so this string must never change
@@ -122,11 +135,28 @@ func cmdSeq(f []string) string {
 	items := strings.Split(f[0], ",")
 	out := make([]string, len(items))
 	shared := sharedState()
+	type kept struct {
+		first string
+		again func() string
+	}
+	keep := make([]kept, len(items))
 	for i, it := range items {
-		out[i] = hx(work(it))
+		res, again := workKeep(it)
+		out[i] = hx(res)
+		if again != nil {
+			keep[i] = kept{again(), again}
+		}
 		if now := sharedState(); now != shared {
 			out[i] = hx("SHARED-STATE-CHANGED " + sharedDiff(shared, now))
 			shared = now
+		}
+	}
+	// what an earlier parse returned is still what it returned
+	for i, k := range keep {
+		if k.again != nil {
+			if now := k.again(); now != k.first {
+				out[i] = hx("RESULT-CHANGED-LATER " + sharedDiff(k.first, now))
+			}
 		}
 	}
 	return strings.Join(out, ",")
